@@ -160,7 +160,10 @@ fn one_run(st: &mut Stats, c: &Case, pseed: u64, sigs: &mut HashSet<u64>, perms:
         // typical flow: a single-date call (with explicit weather) for the first date, then the range, on one thread
         let _ = catch_unwind(AssertUnwindSafe(|| prayer_times_dt(&p, l, s, Some(weather(870.0, -25.0)))));
     }
-    let expected: RangeMap = prayer_times_dt_rng(&p, l, &dr);
+    // (a run that holds the std locks computes its sequential reference AFTER the parallel call: a once-per-process
+    // action of the library must get the chance to happen inside the parallel call, under the held locks)
+    let hold_std_locks = pseed % 8 == 3;
+    let expected_before: Option<RangeMap> = if hold_std_locks { None } else { Some(prayer_times_dt_rng(&p, l, &dr)) };
     st.evaluations += 1;
     st.tick(); // progress per run (a case may hold dozens of repetitions of a 6000-day range)
     verif::set_parallelism_override(c.workers);
@@ -171,7 +174,6 @@ fn one_run(st: &mut Stats, c: &Case, pseed: u64, sigs: &mut HashSet<u64>, perms:
     let t0 = Instant::now();
     // caller context: in one run out of eight the calling thread holds the process's stderr and stdout locks across the
     // call (an application in the middle of printing a report); workers must not need either to finish
-    let hold_std_locks = pseed % 8 == 3;
     if hold_std_locks {
         st.count("runs_with_caller_holding_stderr_and_stdout_locks");
     }
@@ -238,6 +240,7 @@ fn one_run(st: &mut Stats, c: &Case, pseed: u64, sigs: &mut HashSet<u64>, perms:
     st.margin("slowest_run_wall_s(observation only)", wall, 600.0, || json!(c));
     let parallel = log.iter().any(|e| e.point == "parallel");
     st.count(if parallel { "runs.parallel_path" } else { "runs.sequential_path" });
+    let expected: RangeMap = expected_before.unwrap_or_else(|| prayer_times_dt_rng(&p, l, &dr));
     match got {
         Err(pm) if pm.contains("failed to spawn thread") => {
             // the OS refused a thread (resource limits of the sandbox): says nothing about the property
@@ -364,6 +367,25 @@ pub fn run(ctx: &Ctx, st: &mut Stats) {
     let reps = ((ctx.pick(8, 64) as f64 * ctx.scale).ceil() as u32).max(1);
     let mut r = Rng::new(ctx.seed, 1501, ctx.shard);
     let mut n = 0u64;
+    if ctx.shard % 2 == 0 {
+        // the very first computation of this process: a parallel range containing days without twilight, made while the
+        // caller holds the stderr / stdout locks (anything the library does once per process happens under them)
+        let north = ctx.shard % 4 == 0;
+        let c = Case {
+            site: Site::new(if north { 56.0 } else { -56.0 }, 10.0, 0.0, 1.0),
+            method: 6,
+            default_policy: false,
+            start: d2s(ymd(2000 + (ctx.seed % 300) as i32, if north { 6 } else { 12 }, 1)),
+            days: 40,
+            workers: 4,
+            threshold: 0,
+            pseed: (ctx.seed * 1000 + ctx.shard) * 8 + 3,
+            max_sleep_us: 200,
+            repeats: 1,
+        };
+        st.count("first_call_of_process_is_a_parallel_range_under_held_std_locks");
+        check(ctx, st, &c);
+    }
     for (i, (w, d, t)) in cfgs.iter().enumerate() {
         if !ctx.mine(i as u64) {
             continue;
